@@ -291,7 +291,9 @@ impl Oracle for IinOracle {
                         }
                     }
                 }
-                if func == refapp::FUNC_CONFIRM && s.bytes[0] & 0x10 == 0 && self.unsol.is_some() && self.bcast == Some(0xFFFE) {
+                // (the unsolicited response may have been transmitted in this very step, before the outstation got to read the confirm)
+                let unsol_in_step = step.received.iter().any(|f| f.bytes.len() >= 2 && f.bytes[1] == 130 && f.bytes[0] & 0x20 != 0);
+                if func == refapp::FUNC_CONFIRM && s.bytes[0] & 0x10 == 0 && (self.unsol.is_some() || unsol_in_step) && self.bcast == Some(0xFFFE) {
                     // a solicited confirm during an unsolicited wait may end a confirm-mandatory indication
                     self.bcast_known = false;
                 }
